@@ -34,8 +34,68 @@ func (l *pipeListener) Accept() (net.Conn, error) {
 }
 func (l *pipeListener) Close() error   { l.once.Do(func() { close(l.closed) }); return nil }
 func (l *pipeListener) Addr() net.Addr { return pipeAddr(l.addr) }
+// bufConn makes writes on an in-memory pipe non-blocking (bounded queue + pump goroutine). A bare
+// net.Pipe is unbuffered: two peers writing at the same time (TLS 1.3 Finished vs. session tickets)
+// would block each other forever.
+type bufConn struct {
+	net.Conn
+	q    chan []byte
+	done chan struct{}
+	once sync.Once
+}
+
+func newBufConn(c net.Conn) *bufConn {
+	b := &bufConn{Conn: c, q: make(chan []byte, 1024), done: make(chan struct{})}
+	go func() {
+		for {
+			select {
+			case p := <-b.q:
+				if _, err := c.Write(p); err != nil {
+					return
+				}
+			case <-b.done:
+				return
+			}
+		}
+	}()
+	return b
+}
+
+func (b *bufConn) Write(p []byte) (int, error) {
+	cp := append([]byte(nil), p...)
+	select {
+	case b.q <- cp:
+		return len(p), nil
+	case <-b.done:
+		return 0, net.ErrClosed
+	}
+}
+
+func (b *bufConn) Close() error {
+	b.once.Do(func() {
+		// flush what is queued (best effort), then close
+		for {
+			select {
+			case p := <-b.q:
+				_ = b.Conn.SetWriteDeadline(time.Now().Add(time.Millisecond))
+				if _, err := b.Conn.Write(p); err != nil {
+					close(b.done)
+					_ = b.Conn.Close()
+					return
+				}
+				continue
+			default:
+			}
+			break
+		}
+		close(b.done)
+	})
+	return b.Conn.Close()
+}
+
 func (l *pipeListener) Dial(ctx context.Context) (net.Conn, error) {
-	a, b := net.Pipe()
+	ra, rb := net.Pipe()
+	var a, b net.Conn = newBufConn(ra), newBufConn(rb)
 	select {
 	case l.ch <- b:
 		return a, nil
